@@ -291,3 +291,24 @@ def after_handshake(vsel, first_sel, sels):
     if handshake(v) != "result":
         return "handshake-failed"
     return _check_batch(c, sels, v, len(c._incoming_send.items), len(c._notify_send.items), len(c.process.stdin.chunks))
+
+
+# ------------------------------------------------------------------ count dimension: batches of c-1, c, c+1 members
+from symcheck.consts import size_cases, pick  # noqa: E402
+
+for _lim in (410, 1100, 70000):
+    size_cases(_lim)  # scanned at import time (a scan inside a traced path would be repeated per path)
+
+
+def big_batch(vsel, k, pat, lim=1100):
+    n = pick(size_cases(lim), k)
+    if pat == 0:
+        sels = [1] * n                                   # notifications only
+    elif pat == 1:
+        sels = [(0, 1, 2)[i % 3] for i in range(n)]      # responses, notifications, requests
+    else:
+        sels = [(0, 1, 2)[i % 3] for i in range(n)]
+        if n:
+            sels[n // 2] = 3                             # one invalid member in the middle
+            sels[n - 1] = 4                              # and one at the end
+    return transport(vsel, sels)
